@@ -77,6 +77,23 @@ theorem CsvHdr.law (num : Option Num → String) (descr : Option (List (Key × P
   · simp only [he, Bool.false_eq_true, if_false] at hr ⊢
     rw [hr]; rfl
 
+/-- A column of the header block is the member's own CSV strings under the layout flag: nothing else of
+    the series enters it. -/
+theorem csvColumns_getElem (num : Option Num → String) (descr : Option (List (Key × PyVal)) → String)
+    (hs : List CsvHdr) (i : Nat) (hi : i < hs.length) :
+    (csvColumns num descr hs)[i]'(by simpa [csvColumns] using hi) =
+      CsvHdr.write num descr (csvLayout (hs.map (·.md.length))) hs[i] := by
+  simp [csvColumns]
+
+theorem mapM_read_write (num : Option Num → String) (descr : Option (List (Key × PyVal)) → String)
+    (perRow : Bool) (hs : List CsvHdr)
+    (h : ∀ x ∈ hs, CsvHdr.read (CsvHdr.write num descr perRow x) = some x) :
+    (hs.map (CsvHdr.write num descr perRow)).mapM CsvHdr.read = some hs := by
+  induction hs with
+  | nil => rfl
+  | cons x xs ih =>
+    simp [List.mapM_cons, h x (by simp), ih (fun y hy => h y (by simp [hy]))]
+
 /-- The text form of a generic data type never reads back: `to_string` prints eight fields, and
     `from_string` hands them to the constructor as text, which rejects text for `min`. -/
 theorem generic_text_rejected (num : Option Num → String) (descr : Option (List (Key × PyVal)) → String)
